@@ -88,7 +88,47 @@ def rooted_at_this(e, decls=None, loopvars=None, depth=0):
     return False
 
 
-def kill_events(fn, cls_qn, wp_ids):
+_HELPER_MEMO = {}
+
+
+def _helper_kills(db, cal, arg_index, depth):
+    """does the helper (a function record found through the resolved callee) overwrite / forget its arg_index-th parameter on
+    every non-bottom path?  True / False; None when the helper's body is not available (treated as `does not`)"""
+    if db is None or depth > 3:
+        return None
+    key = (cal.get("file"), cal.get("pk"), cal.get("psig"), cal.get("cls"), arg_index)
+    if key in _HELPER_MEMO:
+        return _HELPER_MEMO[key]
+    _HELPER_MEMO[key] = False          # recursion guard
+    res = None
+    if cal.get("file") and db.has_file(cal["file"]):
+        cands = [f for f in db.fns(cal["file"], pk=cal.get("pk")) if f.get("psig") == cal.get("psig") and f.get("cls") == cal.get("cls")]
+        if cands:
+            h = cands[0]
+            if arg_index < len(h.get("params", [])):
+                if h.get("const"):
+                    res = False
+                else:
+                    pid = h["params"][arg_index]["id"]
+                    try:
+                        # a static / traits helper receives the abstract value as a (non-const reference) parameter
+                        sp = {pp["id"] for j, pp in enumerate(h.get("params", [])) if j != arg_index and
+                              (pp.get("T") or "").rstrip().endswith("&") and not (pp.get("T") or "").lstrip().startswith("const")}
+                        allp = [pp["id"] for pp in h.get("params", []) if "variable" in (pp.get("TC") or pp.get("T") or "") and
+                                "vector" not in (pp.get("TC") or "")]
+                        if pid not in allp:
+                            allp.append(pid)
+                        g2, lv = kill_events(h, h.get("cls"), allp, db, depth + 1, state_params=sp)
+                        fl = _KillFlow(g2, _bottom_refine(h, sp), h)
+                        fl.run(h["body"])
+                        res = bool(fl.returns) and all(("kill:%s" % pid) in st for r, st in fl.returns)
+                    except paths.Unstructured:
+                        res = None
+    _HELPER_MEMO[key] = res
+    return res
+
+
+def kill_events(fn, cls_qn, wp_ids, db=None, depth=0, state_params=()):
     """gen function for MustEvents: labels 'kill:<param id>'"""
     decls = dict(local_decls(fn["body"]))
     decls["__body__"] = fn["body"]
@@ -99,7 +139,15 @@ def kill_events(fn, cls_qn, wp_ids):
     loopvars.pop("__body__", None)
 
     def params_in(e):
-        return [x["id"] for x in walk(e) if x.get("k") == "ref" and x.get("rk") == "param" and x.get("id") in wp_ids]
+        out = [x["id"] for x in walk(e) if x.get("k") == "ref" and x.get("rk") == "param" and x.get("id") in wp_ids]
+        # region domain: a local bound to the ghost variables of a parameter stands for the parameter
+        for x in walk(e):
+            if x.get("k") == "ref" and x.get("rk") == "local":
+                dd = decls.get(x.get("id"))
+                i = dd.get("i") if isinstance(dd, dict) else None
+                if i is not None and any(is_call(y, name=("get_or_insert_gvars", "get_gvars")) for y in walk(i)):
+                    out += [y["id"] for y in walk(i) if y.get("k") == "ref" and y.get("rk") == "param" and y.get("id") in wp_ids]
+        return out
 
     def gen(n):
         out = []
@@ -110,13 +158,18 @@ def kill_events(fn, cls_qn, wp_ids):
             recv = n.get("o")
             on_this = recv is None or is_this(recv)
             rooted = rooted_at_this(recv, decls, loopvars) if recv is not None else True
+            if recv is not None and not rooted and state_params:
+                r0 = deref(recv)
+                if isinstance(r0, dict) and r0.get("k") == "ref" and r0.get("id") in state_params:
+                    rooted = True
+                    on_this = True
             if nm in ("set_to_top", "set_to_bottom") and on_this:
                 out.extend("kill:%s" % p for p in wp_ids)
             if nm == "operator=" and recv is not None and is_this(recv):
                 out.extend("kill:%s" % p for p in wp_ids)
             base = nm[len("backward_"):] if nm.startswith("backward_") else nm
             pos = None
-            if base in API and rooted and (recv is not None or callee(n).get("cls") == cls_qn):
+            if base in API and rooted and (recv is not None or (callee(n).get("cls") == cls_qn and not callee(n).get("static"))):
                 pos = list(API[base][0])
                 if base == "apply":
                     pos = [1]
@@ -124,6 +177,21 @@ def kill_events(fn, cls_qn, wp_ids):
                 pos = [ENV_KILL[nm]]
             elif nm in ENV_KILL and recv is None and callee(n).get("cls") == cls_qn:
                 pos = [ENV_KILL[nm]]
+            if nm in ("assign", "forget") and recv is not None and callee(n).get("cls") != cls_qn:
+                # region domain: ghost variables of a program variable, `get_or_insert_gvars(P)` (directly or through a local),
+                # assigned / forgotten in the base domain
+                r0 = recv
+                for _ in range(3):
+                    r1 = resolve_local(decls["__body__"], r0, decls)
+                    if r1 is r0:
+                        break
+                    r0 = r1
+                if any(is_call(y, name=("get_or_insert_gvars", "get_gvars")) for y in walk(r0)):
+                    out.extend("kill:%s" % p for p in params_in(r0))
+            if pos is None and nm in ("insert", "emplace", "insert_or_assign") and recv is not None and rooted:
+                # (re)binding the parameter as a key of one of the value's own tables
+                for x in a:
+                    out.extend("kill:%s" % p for p in params_in(x))
             if pos is not None:
                 for i in pos:
                     if i < len(a):
@@ -131,29 +199,107 @@ def kill_events(fn, cls_qn, wp_ids):
             elif (on_this and callee(n).get("cls") == cls_qn) or (recv is None and any(is_this(x) for x in a)):
                 # delegation: a private helper of the same class, or a static helper / traits function that
                 # receives *this together with the parameter
-                for x in a:
+                for ai, x in enumerate(a):
                     xs = strip(x)
                     if isinstance(xs, dict) and xs.get("k") == "ref" and xs.get("id") in wp_ids:
-                        out.append("kill:%s" % xs["id"])
+                        hk = _helper_kills(db, callee(n), ai, depth)
+                        if hk is True or (hk is None and db is None):
+                            out.append("kill:%s" % xs["id"])
         if k in ("asg",) and is_this(n.get("L")):
             out.extend("kill:%s" % p for p in wp_ids)
         return out
     return gen, loopvars
 
 
-def _bottom_refine(fn):
+def _bottom_refine(fn, state_params=()):
     def atom(c):
         c = strip(c)
-        if isinstance(c, dict) and c.get("k") == "call" and callee(c) and callee(c)["name"] == "is_bottom" and \
-                (c.get("o") is None or rooted_at_this(c.get("o"))):
-            return 1
+        if isinstance(c, dict) and c.get("k") == "call" and callee(c) and callee(c)["name"] == "is_bottom":
+            if c.get("o") is None or rooted_at_this(c.get("o")):
+                return 1
+            r0 = deref(c.get("o"))
+            if isinstance(r0, dict) and r0.get("k") == "ref" and r0.get("id") in state_params:
+                return 1
+        return 0
+
+    # single named exemption: array_adaptive_domain::get_scalar(a, cell) cannot fail for a cell that mk_named_cell has just
+    # created (all callers of the backward helpers do); its failure branch only prints a warning
+    d0 = local_decls(fn["body"])
+
+    def lookup_failed(c):
+        c = strip(c)
+        if isinstance(c, dict) and c.get("k") == "call" and callee(c) and callee(c)["name"] == "operator bool":
+            c = strip(c.get("o"))
+        if isinstance(c, dict) and c.get("k") == "ref" and c.get("rk") == "local":
+            dd = d0.get(c.get("id")) or {}
+            if "i" in dd and any(is_call(y, name="get_scalar") for y in walk(dd["i"])):
+                return -1          # the atom is "lookup failed"; the reference itself is its negation
         return 0
 
     def refine(cond, pol):
         if atom_truth(cond, pol, atom, fn["body"]) is True:
             return None           # accepted early exit: bottom stays bottom
+        if atom_truth(cond, pol, lookup_failed, fn["body"]) is True:
+            return None
         return ()
     return refine
+
+
+class _KillFlow(paths.MustEvents):
+    """MustEvents + `if (x == y)` aliasing: on the branch where two variable parameters are equal a kill of one is a kill
+    of the other (x := y op k with x == y kills y and means x)"""
+
+    def __init__(self, gen, refine, fn):
+        paths.MustEvents.__init__(self, gen, refine=refine)
+        self._pids = {p["id"] for p in fn.get("params", [])}
+
+    def refine(self, cond, st, pol):
+        out = paths.MustEvents.refine(self, cond, st, pol)
+        if out is None:
+            return None
+        c, p = strip(cond), pol
+        while isinstance(c, dict) and c.get("k") == "un" and c.get("op") == "!":
+            c, p = strip(c.get("e")), not p
+        pp = cmp_parts(c)
+        if pp and ((pp[0] == "==" and p) or (pp[0] == "!=" and not p)):
+            a, b = strip(pp[1]), strip(pp[2])
+            if all(isinstance(x, dict) and x.get("k") == "ref" and x.get("id") in self._pids for x in (a, b)):
+                extra = set()
+                if ("kill:%s" % a["id"]) in out:
+                    extra.add("kill:%s" % b["id"])
+                if ("kill:%s" % b["id"]) in out:
+                    extra.add("kill:%s" % a["id"])
+                out = out | frozenset(extra)
+        return out
+
+
+def _witness_flags(body, fl, wp_ids):
+    """{flag id: kill labels} for local bools initialised to false whose only writes are `flag = true` at points where the
+    labels already hold"""
+    d = local_decls(body)
+    out = {}
+    for dd in d.values():
+        i = strip(dd.get("i")) if "i" in dd else None
+        if not (isinstance(i, dict) and i.get("k") == "lit" and i.get("v") == "false"):
+            continue
+        ws = writes_to(body, dd["id"])
+        if not ws:
+            continue
+        labs = None
+        okf = True
+        for w in ws:
+            r = strip(w.get("R")) if w.get("k") == "asg" else None
+            if not (isinstance(r, dict) and r.get("k") == "lit" and r.get("v") == "true"):
+                okf = False
+                break
+            st = fl.at.get(id(w))
+            if st is None:
+                continue
+            cur = {l for l in st if l.startswith("kill:")}
+            labs = cur if labs is None else (labs & cur)
+        if okf and labs:
+            out[dd["id"]] = sorted(labs)
+    return out
 
 
 KILL_EXEMPT = {
@@ -196,7 +342,7 @@ def lhs_kill_rule(ctx, rid, classes=None, out_of_fragment=None, backward=False, 
             wp = written_params(fn)
             if not wp or fn["name"] in ("forget", "intrinsic", "backward_intrinsic", "operator-=", "set_to_bottom"):
                 continue
-            if fn["name"].startswith("weak_") or (fn["name"].startswith("array_") and fn["name"] != "array_load"):
+            if fn["name"].startswith("weak_") or fn["name"] == "ref_store" or (fn["name"].startswith("array_") and fn["name"] != "array_load"):
                 # weak updates join with the old value (nothing is killed); array variables live in the array
                 # domains' own maps (C14)
                 continue
@@ -230,26 +376,47 @@ def lhs_kill_rule(ctx, rid, classes=None, out_of_fragment=None, backward=False, 
                 continue
             body = fn["body"]
             try:
-                gen, loopvars = kill_events(fn, fn["cls"], wp_ids)
-                fl = paths.MustEvents(gen, refine=_bottom_refine(fn))
-                # a range-for over a container of sub-values (disjuncts, packs) that kills the parameter in each
-                # element kills it in the whole value (an empty container is bottom)
-                orig = fl._loop
+                gen, loopvars = kill_events(fn, fn["cls"], wp_ids, ctx.db)
+                def _install(flobj, _gen=gen, _loopvars=loopvars):
+                    # a range-for over a container of sub-values (disjuncts, packs) that kills the parameter in each
+                    # element kills it in the whole value (an empty container is bottom)
+                    orig = flobj._loop
 
-                def _loop(n, st, _o=orig, _gen=gen):
-                    out = _o(n, st)
-                    if out is not None and ((n.get("k") == "rangefor" and isinstance(n.get("v"), dict) and
-                                             rooted_at_this(n.get("r"), local_decls(body), loopvars)) or n.get("k") == "for"):
-                        inner = paths.MustEvents(_gen)
-                        inner._brk, inner._cont, inner._gotos, inner._labels_seen = [[]], [[]], {}, set()
-                        end = inner.stmt(n.get("b"), frozenset())
-                        sts = [x for x in [end] + inner._cont[0] if x is not None]
-                        if sts:
-                            common = frozenset.intersection(*sts)
-                            out = out | common
-                    return out
-                fl._loop = _loop
+                    def _loop(n, st, _o=orig):
+                        out = _o(n, st)
+                        if out is not None and ((n.get("k") == "rangefor" and isinstance(n.get("v"), dict) and
+                                                 rooted_at_this(n.get("r"), local_decls(body), _loopvars)) or n.get("k") == "for"):
+                            inner = paths.MustEvents(_gen)
+                            inner._brk, inner._cont, inner._gotos, inner._labels_seen = [[]], [[]], {}, set()
+                            end = inner.stmt(n.get("b"), frozenset())
+                            sts = [x for x in [end] + inner._cont[0] if x is not None]
+                            if sts:
+                                common = frozenset.intersection(*sts)
+                                out = out | common
+                        return out
+                    flobj._loop = _loop
+                fl = paths.MustEvents(gen, refine=_bottom_refine(fn))
+                _install(fl)
                 fl.run(body)
+                # witness flags:  bool done = false; ... { kill(x); done = true; } ... if (!done) { ... }
+                # every `flag = true` happens where the parameter is already killed, so `flag` implies killed
+                flags = _witness_flags(body, fl, wp_ids)
+                if flags and any(("kill:%s" % pid) not in st for pid in wp_ids for r, st in fl.returns):
+                    base_refine = _bottom_refine(fn)
+
+                    def refine2(cond, pol, _f=flags, _b=base_refine):
+                        r = _b(cond, pol)
+                        if r is None:
+                            return None
+                        c, p = strip(cond), pol
+                        while isinstance(c, dict) and c.get("k") == "un" and c.get("op") == "!":
+                            c, p = strip(c.get("e")), not p
+                        if isinstance(c, dict) and c.get("k") == "ref" and c.get("id") in _f and p:
+                            return tuple(r) + tuple(_f[c["id"]])
+                        return r
+                    fl = paths.MustEvents(gen, refine=refine2)
+                    _install(fl)
+                    fl.run(body)
             except paths.Unstructured as e:
                 ctx.skipped(key, rid=rid)
                 continue
